@@ -118,10 +118,10 @@ Fixpoint fget (k : bytes) (m : fields) : option (list bytes) :=
   | (k', vs) :: r => if bytes_eqb k k' then Some vs else fget k r
   end.
 
-Fixpoint fremove (k : bytes) (m : fields) : fields :=
+Fixpoint fremove (k : bytes) (m : fields) : fields :=          (* remove(k): keys are unique *)
   match m with
   | [] => []
-  | (k', vs) :: r => if bytes_eqb k k' then r else (k', vs) :: fremove k r
+  | (k', vs) :: r => if bytes_eqb k k' then fremove k r else (k', vs) :: fremove k r
   end.
 
 Fixpoint fset (k : bytes) (vs : list bytes) (m : fields) : fields :=   (* get_mut + mutate *)
